@@ -1,4 +1,4 @@
-package tlx
+package tls
 
 import (
 	"fmt"
@@ -34,7 +34,7 @@ var HandWritten = map[string]bool{"msg_container": true, "gzip_packed": true}
 func CompareDef(s *Schema, r *Registry, d *Def) []string {
 	var out []string
 	bad := func(f string, a ...any) { out = append(out, fmt.Sprintf(f, a...)) }
-	if d.HasID && !d.Dormant {
+	if d.HasID && !d.Dormant && !s.SkipCRC {
 		if c := CanonicalCRC(d.Line); c != d.ID {
 			bad("id written in the schema %08x != CRC-32 of the canonical line %08x", d.ID, c)
 		}
@@ -165,7 +165,7 @@ func checkType(s *Schema, r *Registry, t Type, gt reflect.Type) string {
 		}
 		return checkType(s, r, *t.Elem, gt.Elem())
 	case "bare":
-		d := s.bareCtor(t.Name)
+		d := s.BareCtor(t.Name)
 		if d == nil {
 			return "unknown bare constructor " + t.Name
 		}
